@@ -63,6 +63,20 @@ def harnesses_for(unit, tier):
 
 
 def run_units(units, repo, verif, work, tier, jobs=None):
+    try:
+        return _run_units(units, repo, verif, work, tier, jobs)
+    except Exception as e:   # a crashed runner is never a verdict
+        import traceback
+        out = []
+        for u in units:
+            r = KResult(u)
+            r.status = 'undecided'
+            r.reason = 'kani runner crashed: %s | %s' % (e, traceback.format_exc()[-400:].replace('\n', ' / '))
+            out.append(r)
+        return out
+
+
+def _run_units(units, repo, verif, work, tier, jobs=None):
     t0 = time.time()
     results = {}
     scratch = make_scratch(repo, work)
